@@ -28,6 +28,9 @@ def dispatch(prop):
     if prop in ("C16", "C17"):
         import lr
         return lr.run_c16 if prop == "C16" else lr.run_c17
+    if prop == "C14":
+        import uncertainty
+        return uncertainty.run_c14
     if prop == "C08":
         import conversions
         return conversions.run_c08
